@@ -6,7 +6,7 @@ import "strconv"
 // every container shape; a structural snapshot (written without reflection) is taken before and
 // compared after the render, and a second render sharing the data must give the same output.
 
-var vhC18Keys = []string{"a", "b", "c", "k", "z", "x", "xs", "ss", "is", "arr", "m", "mi", "st", "nest", "deep", "i", "j"}
+var vhC18Keys = []string{"a", "b", "c", "k", "z", "x", "xs", "ss", "is", "arr", "m", "mi", "st", "nest", "deep", "i", "j", "u", "u2", "uv"}
 
 func vhSnap(v interface{}) string {
 	switch x := v.(type) {
@@ -74,8 +74,30 @@ func vhSnap(v interface{}) string {
 		return "*{" + x.A + "," + strconv.Itoa(x.B) + "," + vhSnap(x.C) + "," + strconv.Itoa(x.priv) + "}"
 	case vhS:
 		return "{" + x.A + "," + strconv.Itoa(x.B) + "," + vhSnap(x.C) + "}"
+	case *vhC18User:
+		return "*U{" + vhSnapBase(x.VhBase) + "," + x.Name + "," + vhSnapBase(x.Opt) + "}"
+	case vhC18User:
+		return "U{" + vhSnapBase(x.VhBase) + "," + x.Name + "," + vhSnapBase(x.Opt) + "}"
 	}
 	return "?"
+}
+
+// structs with an embedded pointer (nil or set) and an optional pointer field
+type VhBase struct {
+	ID    int
+	Label string
+}
+type vhC18User struct {
+	*VhBase
+	Name string
+	Opt  *VhBase
+}
+
+func vhSnapBase(b *VhBase) string {
+	if b == nil {
+		return "nil"
+	}
+	return "&{" + strconv.Itoa(b.ID) + "," + b.Label + "}"
 }
 
 func vhC18Ctx() map[string]interface{} {
@@ -93,6 +115,8 @@ func vhC18Ctx() map[string]interface{} {
 		// interface-keyed maps (what YAML decoders produce) inside generic containers
 		"deep": []interface{}{map[interface{}]interface{}{"k": "A", 1: "one"}, map[string]interface{}{"a": map[interface{}]interface{}{"k": "B"}}},
 		"i":    1, "j": 2,
+		// embedded pointers: nil in u and uv, set in u2
+		"u": &vhC18User{Name: a}, "u2": &vhC18User{VhBase: &VhBase{ID: 1, Label: b}, Name: b, Opt: &VhBase{ID: 2, Label: "o"}}, "uv": vhC18User{Name: b},
 	}
 }
 
@@ -119,6 +143,9 @@ var vhC18Tpl = []string{
 	"{{ deep|first|json_encode }}{{ deep|last|json_encode }}",
 	"{{ deep|first|keys|join(',') }}{{ deep|last|keys|join(',') }}{{ deep|length }}{% for d in deep %}{% for k, v in d %}{{ k }}{% endfor %}{% endfor %}",
 	"{{ deep|first|merge({'z': 1})|length }}{{ deep|first|sort|length }}{{ deep|first|url_encode }}{{ dump(deep) }}",
+	// fields promoted through embedded pointers that are nil or set, optional pointer fields
+	"{{ u.Label }}|{{ u.ID }}|{{ u.Name }}|{% if u.ID is defined %}d{% endif %}|{{ u2.Label }}{{ u2.ID }}{{ u2.Opt.Label }}|{{ uv.Label }}{{ uv.Name }}|{{ u.Opt.Label }}{{ u.Opt }}|{{ u.Label|default('none') }}{{ u.Label|length }}",
+	"{% if u.Label %}y{% else %}n{% endif %}{% for k in [u.ID, u2.ID, uv.ID] %}{{ k }},{% endfor %}{% set l = u.Label %}[{{ l }}]{{ u['Label'] }}{{ u2['ID'] }}",
 	// every construct that binds a name, binding the name of a map, list or struct the caller passed
 	"{% import 'lib' as m %}{{ m.f(1) }}{% import 'lib' as xs %}{{ xs.f(2) }}{% import 'lib' as st %}{% import 'lib' as mi %}",
 	"{% from 'lib' import f as m %}{{ m(1) }}{% from 'lib' import f as xs, g as nest %}{{ xs(2) }}{{ nest() }}",
